@@ -13,6 +13,7 @@ import (
 	"os"
 	"runtime"
 	"strconv"
+	"strings"
 	"sync"
 	"time"
 
@@ -65,8 +66,13 @@ func compare(res *lib.Result, outs []string, w *World, sc *Scenario, mode string
 		}
 		if model != impl {
 			cut := *sc
-			cut.Events = sc.Events[:min(i+1, len(sc.Events))]
-			res.Mismatch(lib.Mismatch{Sig: "exec-actions-differ(" + mode + ")", Input: map[string]any{"mode": mode, "scenario": cut, "line": w.Lines[nn+i]},
+			cut.Events = sc.Events[:min(w.evOf[i]+1, len(sc.Events))]
+			sig := "exec-actions-differ(" + mode + ")"
+			if strings.HasPrefix(w.Lines[nn+i], "state ") {
+				// same actions so far, different private state (Tendermint variables / vote counter)
+				sig = "exec-state-differs(" + mode + ")"
+			}
+			res.Mismatch(lib.Mismatch{Sig: sig, Input: map[string]any{"mode": mode, "scenario": cut, "line": w.Lines[nn+i]},
 				Model: model, Impl: impl})
 			return rules, false
 		}
@@ -124,7 +130,7 @@ func main() {
 
 	startWatchdog(20*time.Second, func(w *World) {
 		cut := *w.sc
-		cut.Events = append(append([]Event(nil), w.sc.Events[:min(len(w.sc.Events), len(w.Outs))]...), Event{M: w.PendingM, In: *w.Pending})
+		cut.Events = append(append([]Event(nil), w.sc.Events[:min(len(w.sc.Events), max(w.nEv-1, 0))]...), Event{M: w.PendingM, In: *w.Pending})
 		mode := "sim"
 		if !cut.Disciplined {
 			mode = "fuzz"
@@ -155,14 +161,18 @@ func main() {
 	var dwg sync.WaitGroup
 	var dmu sync.Mutex
 	dCommits, dTimeouts := 0, 0
+	var dChecks []execCheck
+	var dReplays []replayCheck
 	for k := 0; k < f.Scale(6, 40); k++ {
 		dwg.Add(1)
 		go func(k int) {
 			defer dwg.Done()
-			c, t := runDriverTrace(res, r.Fork(uint64(7000000+k)), k)
+			c, t, ck, rp := runDriverTrace(res, r.Fork(uint64(7000000+k)), k)
 			dmu.Lock()
 			dCommits += c
 			dTimeouts += t
+			dChecks = append(dChecks, ck...)
+			dReplays = append(dReplays, rp...)
 			dmu.Unlock()
 		}(k)
 		if k%8 == 7 {
@@ -185,6 +195,8 @@ func main() {
 	phA, phB := phasedSpace(true), phasedSpace(false)
 	nPh := (phA+phStrideA-1)/phStrideA + (phB+phStrideB-1)/phStrideB
 	runNegativeControl(res)
+	// round 5: directed multi-round families (directed.go)
+	nPlace, nRelock, nRounds := placementSpace, relockVariants+1, f.Scale(2500, 20000)
 	workers := max(4, min(14, runtime.NumCPU()-2))
 	var wg sync.WaitGroup
 	var mu sync.Mutex
@@ -232,15 +244,23 @@ func main() {
 						rules, _ = compare(res, outs[off:off+len(w.Lines)], w, sc, mode)
 						off += len(w.Lines)
 					}
+					if sc.Disciplined && !w.Admissible && strings.HasPrefix(it.label, "pending-commit") {
+						// a fixed input list: on other code its timeouts may never have been scheduled; then it proves nothing
+						res.Hit("pending-commit: fixed history not admissible on this tree (oracle findings dropped)")
+						w.Viols = nil
+					}
 					report(res, w, sc, mode)
-					if mode == "sim" && !w.Admissible {
-						res.Fatalf("harness bug: generated an inadmissible history (%s)", w.Why)
+					if sc.Disciplined && !w.Admissible && !strings.HasPrefix(it.label, "pending-commit") {
+						res.Fatalf("harness bug: generated an inadmissible history in mode %s (%s)", mode, w.Why)
 					}
 					nontrivial := 0
-					for _, o := range w.Outs {
-						if o != "-" {
+					for i, o := range w.Outs {
+						if o != "-" && !w.isState[i] {
 							nontrivial++
 						}
+					}
+					if w.DumpErr != "" {
+						res.Fatalf("the real state machine's private state cannot be read any more (%s): the state comparison is lost", w.DumpErr)
 					}
 					res.Case(mode+strconv.Itoa(j), nontrivial > 0)
 					mu.Lock()
@@ -250,8 +270,11 @@ func main() {
 					for k, v := range w.hits {
 						agg[mode+"/"+k] += v
 					}
-					agg[mode+"/inputs-delivered"] += len(w.Outs)
+					agg[mode+"/inputs-delivered"] += w.nEv
 					agg[mode+"/inputs-with-actions"] += nontrivial
+					if mode == "relock" || mode == "rounds" || mode == "placement" {
+						agg[mode+"/"+it.label]++
+					}
 					if mode == "adversary" {
 						agg["adversary/"+it.label]++
 						for _, v := range w.views {
@@ -291,6 +314,44 @@ func main() {
 					e := j - nSim - nFuzz
 					it.sc = exhaustiveScenario(e/exN, e%exN)
 					it.w = Replay(it.sc)
+				} else if j >= nSim+nFuzz+nEx+nPh {
+					e := j - nSim - nFuzz - nEx - nPh
+					switch {
+					case e < nPlace:
+						// the four placements of one point: oracle across them, each compared with the model
+						runs, viol := runPlacementPoint(e)
+						if viol != nil {
+							res.Violate(*viol)
+						}
+						for k, pr := range runs {
+							x := item{j: j*4 + k, mode: "placement", compare: true, sc: pr.sc, w: pr.w, label: placementNames[k]}
+							batch = append(batch, x)
+						}
+						mu.Lock()
+						agg["placement/reaction:"+strings.SplitN(runs[3].out, " precommits", 2)[0]]++
+						mu.Unlock()
+						if len(batch) >= 64 {
+							flush(batch)
+							batch = batch[:0]
+						}
+						continue
+					case e < nPlace+nRelock:
+						it.mode = "relock"
+						if v := e - nPlace; v < relockVariants {
+							it.sc, it.w = runRelock(v)
+							it.label = fmt.Sprintf("variant-%d", v)
+						} else {
+							it.sc = pendingCommitScenario()
+							it.w = Replay(it.sc)
+							it.label = "pending-commit(cd6cea9)"
+							if o := it.w.Outs[len(it.w.Outs)-1]; it.w.isState[len(it.w.Outs)-1] || o == "-" {
+								res.Hit("pending-commit: obsolete timeout ignored, commit stays pending (since cd6cea9)")
+							}
+						}
+					default:
+						it.mode = "rounds"
+						it.sc, it.w, it.label = genRounds(r.Fork(uint64(9000000 + e)))
+					}
 				} else {
 					// oracle on every point; the Lean model is compared on one point in eight
 					it.mode = "adversary"
@@ -314,12 +375,21 @@ func main() {
 			flush(batch)
 		}()
 	}
-	for j := 0; j < nSim+nFuzz+nEx+nPh; j++ {
+	for j := 0; j < nSim+nFuzz+nEx+nPh+nPlace+nRelock+nRounds; j++ {
 		jobs <- j
 	}
 	close(jobs)
 	wg.Wait()
 	dwg.Wait()
+	if len(dChecks) < 200 {
+		res.Fatalf("driver traces starved: only %d executed action lists to compare with the model of driver.execute", len(dChecks))
+	} else if d, err := lib.StartDriver(f.Driver); err != nil {
+		res.Fatalf("Lean driver failed: %v", err)
+	} else {
+		compareExec(res, d, dChecks)
+		compareReplay(res, d, dReplays)
+		d.Close()
+	}
 	if dCommits < 20 || dTimeouts < 20 {
 		// an idle run sees ~300 commits and ~1200 timeouts; a starved trace validates nothing
 		res.Fatalf("driver traces starved: only %d commits and %d timeouts observed over all traces", dCommits, dTimeouts)
@@ -360,7 +430,24 @@ func runReplay(f lib.Flags, res *lib.Result) {
 			return
 		}
 		runThresholds(f, res, lib.NewRNG(1), drv, []uint64{n})
-	case "sim", "fuzz", "exhaustive", "adversary":
+	case "placement":
+		code, err := strconv.Atoi(body.N)
+		if err != nil || code < 0 || code >= placementSpace {
+			res.Fatalf("replay: bad placement point")
+			return
+		}
+		runs, viol := runPlacementPoint(code)
+		for k, pr := range runs {
+			askCompare(res, drv, pr.w, pr.sc, "placement")
+			res.Case(fmt.Sprintf("replay/placement-%d", k), true)
+			for _, v := range pr.w.Viols {
+				res.Violate(lib.Violation{Sig: v.Sig, What: v.What, Replay: replayBody{Mode: "relock", Scenario: pr.sc}})
+			}
+		}
+		if viol != nil {
+			res.Violate(*viol)
+		}
+	case "sim", "fuzz", "exhaustive", "adversary", "relock", "rounds":
 		if body.Scenario == nil {
 			res.Fatalf("replay: no scenario")
 			return
